@@ -82,6 +82,41 @@ void ForEachLine(const std::string& path, const std::function<void(size_t, const
     }
 }
 
+int TableMain(const std::string& path, const std::function<std::string(const UniValue& row)>& check)
+{
+    InstallAbortHandlers();
+    ForEachLine(path, [&](size_t n, const UniValue& row) {
+        R().cur_test = n; R().cur_step = 0; R().cur_action = row;
+        std::string why;
+        try { why = check(row); } catch (const std::exception& e) { why = std::string("exception: ") + e.what(); }
+        ++R().steps; ++R().tests;
+        if (!why.empty()) R().Mismatch(row, why);
+    });
+    R().Summary();
+    return 0;
+}
+
+int64_t AmountFromLimbs(const UniValue& a)
+{
+    const UniValue& d = a["d"];
+    // computed in unsigned 128-bit so that -2^63 is representable
+    unsigned __int128 m = (unsigned __int128)d[0].getInt<int64_t>() + (unsigned __int128)d[1].getInt<int64_t>() * 100000000ULL +
+                          (unsigned __int128)d[2].getInt<int64_t>() * 10000000000000000ULL;
+    if (a["neg"].get_bool()) return (int64_t)(~(uint64_t)m + 1);
+    return (int64_t)(uint64_t)m;
+}
+UniValue LimbsFromAmount(int64_t v)
+{
+    const bool neg = v < 0;
+    unsigned __int128 m = neg ? (unsigned __int128)(~(uint64_t)v) + 1 : (unsigned __int128)v;
+    UniValue d(UniValue::VARR);
+    d.push_back((int64_t)(m % 100000000ULL)); m /= 100000000ULL;
+    d.push_back((int64_t)(m % 100000000ULL)); m /= 100000000ULL;
+    d.push_back((int64_t)m);
+    UniValue o(UniValue::VOBJ); o.pushKV("neg", neg); o.pushKV("d", d);
+    return o;
+}
+
 UniValue Obj(std::initializer_list<std::pair<std::string, UniValue>> kv)
 {
     UniValue o(UniValue::VOBJ); for (auto& [k, v] : kv) o.pushKV(k, v); return o;
